@@ -125,3 +125,16 @@ func classNames(cs []universe.Class) []string {
 	}
 	return out
 }
+
+// uniqStrings removes later duplicates.
+func uniqStrings(in []string) []string {
+	seen := map[string]bool{}
+	var out []string
+	for _, s := range in {
+		if !seen[s] {
+			seen[s] = true
+			out = append(out, s)
+		}
+	}
+	return out
+}
